@@ -204,7 +204,7 @@ RETCODE adfReadDataBlock ( struct AdfVolume * const vol,
     if ( rc != RC_OK ) {
         adfEnv.eFct ( "adfReadDataBlock: error reading block %d, volume '%s'",
                        nSect, vol->volName );
-        //return RC_ERROR;
+        return rc;     /* the caller's buffer keeps its content: buf holds nothing valid */
     }
 
     memcpy(data,buf,512);
